@@ -184,3 +184,32 @@ Definition c10_case (cr hasw : bool) (edges : list Q) (patches : list (list obj)
     match impl_meas with Some m => qmat_eqb m (spec_sum_weights hasw cr edges patches) | None => true end;
     increasingb edges && (2 <=? length edges)%nat
   ].
+
+(* ---------- a binning that crossed a process boundary (C10, worker processes) ----------
+   Binning / BinningConfig / Configuration objects are pickled on their way to the workers of
+   Catalog.build_trees, HistData.from_catalog and count_pairs (ParallelJob func_args / func_kwargs),
+   and copied (copy / deepcopy / Binning.copy) into results.  What arrives must be the binning
+   that was sent: (closed = right?, edges). *)
+Definition binning := (bool * list Q)%type.
+Definition binning_eqb (a b : binning) : bool :=
+  Bool.eqb (fst a) (fst b) && qlist_eqb (snd a) (snd b).
+(* the values on which two binnings of about the same range can disagree: all edges of both,
+   the midpoints between neighbouring edges, one value below and one above *)
+Fixpoint midpoints (l : list Q) : list Q :=
+  match l with a :: ((b :: _) as t) => ((a + b) / 2) :: midpoints t | _ => [] end.
+Definition probes_of (edges : list Q) : list Q :=
+  (ehd edges - 1) :: (elast edges + 1) :: edges ++ midpoints edges.
+Definition same_members_on (zs : list Q) (a b : binning) : bool :=
+  forallb (fun z => forallb (fun k => Bool.eqb (memberb (fst a) (snd a) k z) (memberb (fst b) (snd b) k z))
+                            (seq 0 (Nat.max (length (snd a)) (length (snd b))))) zs.
+(* one transport: sent (cr, edges), received (cr', edges') as reported by the object that arrived
+   flags: 0 the closed side arrived unchanged      1 the edges arrived unchanged
+          2 sent and received binning put every edge / midpoint / outside value of either into the same bins
+          3 hypotheses (sent edges strictly increasing, >= 2) *)
+Definition c10_transport_case (cr : bool) (edges : list Q) (cr' : bool) (edges' : list Q) : nat :=
+  code [
+    Bool.eqb cr cr';
+    qlist_eqb edges edges';
+    same_members_on (probes_of edges ++ probes_of edges') (cr, edges) (cr', edges');
+    increasingb edges && (2 <=? length edges)%nat
+  ].
